@@ -217,8 +217,19 @@ def run_chunk(chunk, ctx):
 
 
 # ---------------------------------------------------------------------------------------------- (b) pipeline level
+# hand-written bases with brace / bracket shapes the generator does not produce (conforming or not: the claim is relational)
+PIPE_SPECIAL = [
+    ("n1.h", "#ifndef N1_H\n# define N1_H\n\ntypedef struct s_out\n{\n\tint\ta;\n\tstruct s_in\n\t{\n\t\tint\tb;\n\t} in;\n\tint\tc;\n}\tt_out;\n\n#endif\n"),
+    ("n5.h", "#ifndef N5_H\n# define N5_H\n\nstruct s_out\n{\n\tchar\t*a;\n\tunion u_in\n\t{\n\t\tint\tb;\n\t} in;\n\tstruct s_x\n\t{\n\t\tint\tq;\n\t}  xx;\n};\n\n#endif\n"),
+    ("n2.c", "static int\tg_tab[2][3] = {{1, 2, 3}, {4, 5, 6}};\n\nint\tfn(int a[2], char *s[])\n{\n\tif (a[0]) {\n\t\treturn (g_tab[1][a[1]]);\n\t} else {\n\t\treturn (s[0][0]);\n\t}\n}\n"),
+    ("n3.c", "int\tfn(int a)\n{\n\tint\tt[3];\n\n\tt[0] = a;\n\twhile (t[0]) { t[0]--; }\n\treturn (t[ t[0] ]);\n}\n"),
+    ("n4.h", "#ifndef N4_H\n# define N4_H\n\nenum e_k\n{\n\tKA,\n\tKB\n} ;\n\nunion u_v\n{\n\tint\t\ti;\n\tchar\tc[4];\n};\n\n#endif\n"),
+]
+
+
 def pipeline_chunks(tier, n):
-    return [dict(part="pipeline", seed=i, kind="h" if i % 4 == 3 else "c", sub=i % 3) for i in range(n)]
+    out = [dict(part="pipeline", special=i, seed=i, kind="c", sub=0) for i in range(len(PIPE_SPECIAL))]
+    return out + [dict(part="pipeline", seed=i, kind="h" if i % 4 == 3 else "c", sub=i % 3) for i in range(n)]
 
 
 def respell_sites(text):
@@ -240,6 +251,9 @@ def respell_sites(text):
 def run_pipeline_chunk(chunk, ctx):
     from harness import families as F, pipeline as P
     prog = F.program(chunk["seed"], ctx["tier"], chunk["kind"])
+    if "special" in chunk:
+        name, body = PIPE_SPECIAL[chunk["special"]]
+        prog = F.Prog(name, F.header_lines(name) + [F.Line([""], "blank")] + [F.Line([l], "raw") for l in body.split("\n")[:-1]])
     ex = Explorer()
     core.set_run(ex)
     col = Collector(HNAME, seed=ctx["seed"], sample_rate=ctx.get("sample_rate", 0.1))
